@@ -157,6 +157,18 @@ def replay(case):
         tops = [x for x in tree[case['root']]['kids'] if tree[x]['kind'] == 'Asrt']
         doc = sb.encrypt_element(_wrap_top_assertion(doc, tops.index(case['enc'])),
                                  sb.xp('Response', 'EncryptedAssertion', 'Assertion'), 'kSpEnc1')
+        if case.get('bare'):
+            # ... and plants a second cipher text of his own -- a forged assertion encrypted for the SP -- as a bare
+            # EncryptedData child of the Response in front of the EncryptedAssertion (the tool decrypts the FIRST
+            # EncryptedData of whatever text it is handed, T7)
+            forged = spc.default_assertion(aid='x-bare', subject='user-forged', attrs=[(sb.OID['givenName'], ['val-forged-given']),
+                                                                                      (sb.OID['sn'], ['val-forged-sn'])])
+            tmp = sb.response(spc.default_response(), '<saml:EncryptedAssertion>%s</saml:EncryptedAssertion>' % sb.assertion(forged))
+            tmp = sb.encrypt_element(tmp, sb.xp('Response', 'EncryptedAssertion', 'Assertion'), 'kSpEnc1')
+            m = re.search(r'<((?:\w+:)?)EncryptedData\b.*?</\1EncryptedData>', tmp, re.S)
+            if not m or '<saml:EncryptedAssertion>' not in doc:
+                raise fw.Machinery('bare twin: cipher text or EncryptedAssertion not found')
+            doc = doc.replace('<saml:EncryptedAssertion>', m.group(0) + '<saml:EncryptedAssertion>', 1)
         out['doc'] = doc
     for v in case['verdicts']:
         c = v['cfg']
@@ -240,6 +252,10 @@ def main():
                         # carry over; the provenance of the accepted identity is judged
                         t['verdicts'] = [dict(v, mustReject=False, mustAccept=False) for v in c['verdicts']]
                     twins.append(t)
+                    if c['edits'] <= 1:
+                        b = dict(t, bare=True)
+                        b['verdicts'] = [dict(v, mustReject=False, mustAccept=False) for v in c['verdicts']]
+                        twins.append(b)
     # documents in which a genuine signature sits directly below the forged element "x": once more with an identifier string
     # for "x" that extends the signed element's (independent of the rotation above)
     idtwins = []
@@ -264,7 +280,7 @@ def main():
             raise fw.Machinery('the stand-in disagrees with XmlSecTool.tla on %s: %s\n%s' % (sh, out['tool_mismatch'], out['doc']))
         tool_checked += len(case['tool'])
         for r in out['cfg']:
-            scn = {'level': case['level'], 'edits': case['edits'], 'shape': sh, 'cfg': r['cfg'], 'enc': case.get('enc') or 0,
+            scn = {'level': case['level'], 'edits': case['edits'], 'shape': sh, 'cfg': r['cfg'], 'enc': case.get('enc') or 0, 'bare': bool(case.get('bare')),
                    'alg': case.get('alg'), 'idstyle': case.get('idstyle', 'plain')}
             chk.count(scn, nontrivial=r['mustReject'] or r['mustAccept'])
             accepted = r['verdict'] == 'accept'
